@@ -27,7 +27,8 @@ def t3(rep, tier, seed):
 def run(rep, tier, seed):
     rep.level = "exploration"
     rep.assume("A1", "A4", "A6", "A7", "A8")
-    D.run_contracts(rep, "C07", D.PART_HEUR + D.FIT + D.COVER + D.TQ + D.exact() + D.CBLDM, tier, with_lemmas=False, only_tagged=True)
+    D.run_contracts(rep, "C07", D.PART_HEUR + D.FIT + D.COVER + D.TQ, tier, with_lemmas=False, only_tagged=True)
+    D.run_contracts(rep, "C07", D.exact() + D.CBLDM, "lite" if tier == "quick" else tier, only_tagged=True)       # only their opacity obligations are claimed here
     D.run_contracts(rep, "C07", D.adaptors(), tier, only_tagged=True)
     D.run_static(rep, "C07", ("purity",))      # every per-call contract presupposes that results are functions of the arguments
     t3(rep, tier, seed)
